@@ -333,9 +333,17 @@ static std::string value_elem(const ContentPtr& e0) {
 }
 
 static std::string value_result(const ContentPtr& c) {
-  if (dynamic_cast<const Record*>(c.get()) || dynamic_cast<const None*>(c.get())) return value_elem(c);
-  if (const NumpyArray* a = dynamic_cast<const NumpyArray*>(c.get())) if (a->ndim() == 0) return value_elem(c);
   return value_elem(c);
+}
+
+// the value of an already dumped result: the dump is rebuilt as an eager layout first, so that the walk never
+// touches a generator or a cache (a lazy result would be generated again by every access)
+static std::string value_of_dump(const std::string& text) {
+  Sx x = parse_line(text);
+  const std::string h = x.head();
+  if (h == "scalar" || h == "none" || h == "unknown" || h.empty()) return text;
+  if (h == "record") return value_elem(build(x[2])->getitem_at_nowrap(to_i64(x[1])));
+  return value_elem(build(x));
 }
 
 // op = list (NAME args...) starting at index `b` of `s`.  Array results go to `out`, others to `text`.
@@ -544,7 +552,7 @@ static std::string handle_virt(const Sx& cs) {
           if (!same && !quiet && eo.ok && vo.arr.get() != nullptr && eo.arr.get() != nullptr) {
             // differently dumped arrays: compare the values element by element
             std::string vv, ev;
-            try { vv = value_result(vo.arr); ev = value_result(eo.arr); }
+            try { vv = value_of_dump(vo.text); ev = value_of_dump(eo.text); }
             catch (std::exception& e) { vv = "(walk-failed)"; ev = "(walk-failed-too)"; }
             if (vv == ev) vtxt += " (veq 1)";
             else vtxt += " (veq 0 " + vv + " " + ev + ")";
